@@ -290,6 +290,56 @@ class PrivFirstModel(LazyModel):
         return any(h.startswith("privinit:") for h in hist)     # histories without a private init: main model
 
 
+ENV_CODE = "_a.ActivationEnvironment(fluence=1e8, Cd_ratio=70, fast_ratio=50, location='x')"
+AUX_CALCS = [
+    # public functions that need lazily loaded data but are not the plain calculators of CALCS: helper functions,
+    # calculators with optional arguments at non-default values, calculators of other modules built on the tables
+    ("activation", "aux:IAEA_abundance", "from periodictable import activation as _a\n"
+     "[_a.IAEA1987_isotopic_abundance(i) for i in (pt.Co[59], pt.Fe[58], pt.H[2], pt.H[1], pt.Au[197])]"),
+    ("activation", "aux:activation_IAEA",
+     "from periodictable import activation as _a\n_s = _a.Sample('Co30Fe70', 10)\n"
+     "_s.calculate_activation(%s, exposure=10, rest_times=[0, 1], abundance=_a.IAEA1987_isotopic_abundance)\n"
+     "(sorted((str(k.isotope), k.daughter, k.reaction, v) for k, v in _s.activity.items()), _s.decay_time(0.001))" % ENV_CODE),
+    ("activation", "aux:activity_fn", "from periodictable import activation as _a\n"
+     "sorted((k.daughter, k.reaction, v) for k, v in _a.activity(pt.Co[59], 1.0, %s, 10, [0, 1]).items())" % ENV_CODE),
+    ("neutron", "aux:composite_sld", "from periodictable import nsf as _n\n"
+     "_n.neutron_composite_sld([pt.formula('H2O'), pt.formula('Gd2O3')], wavelength=0.5)(numpy.array([1., 2.]), density=2.0)"),
+    ("neutron", "aux:D2O_match", "from periodictable import nsf as _n\n_n.D2O_match('C3H4H[1]NO@1.29n')"),
+    ("neutron", "aux:scattering_energy", "pt.neutron_scattering('Sm2O3', density=8.3, energy=25.3)"),
+    ("neutron", "aux:fasta", "from periodictable import fasta as _f\n"
+     "(lambda m: (m.sld, m.Dsld, m.mass, m.D2Omatch))(_f.Sequence('x', 'ACDE', type='aa'))"),
+    ("xray", "aux:index_of_refraction", "from periodictable import xsf as _x\n_x.index_of_refraction('SiO2', density=2.2, energy=8.0)"),
+    ("xray", "aux:mirror_reflectivity", "from periodictable import xsf as _x\n"
+     "_x.mirror_reflectivity('Ni', density=8.9, energy=8.0, angle=numpy.array([0.1, 0.5]))"),
+    ("xray", "aux:xray_sld_wavelength", "pt.xray_sld('Fe{2+}2O3', density=5.2, wavelength=1.54)"),
+    ("xray", "aux:fxrayatq", "from periodictable import cromermann as _c\n_c.fxrayatq('Fe', numpy.array([0., 1.]), charge=2)"),
+    ("lines", "aux:xray_wavelength", "from periodictable import xsf as _x\n(_x.xray_wavelength(8.0), pt.Cu.K_alpha_units)"),
+    ("mff", "aux:magnetic_M_Q", "pt.Fe.magnetic_ff[3].M_Q(numpy.array([0., 1.]))"),
+    ("radius", "aux:volume_packing", "pt.formula('NaCl').volume(packing_factor='fcc')"),
+    ("crystal", "aux:list_crystal", "_printed(pt.elements.list, 'symbol', 'crystal_structure')"),
+]
+
+
+class AuxFirstModel(LazyModel):
+    """Sub-alphabet for auxiliary public functions as the FIRST thing that needs a lazily loaded table (helper
+    functions, optional arguments at non-default values, calculators of other modules).  Each is observed in the
+    pristine interpreter and after every other event of the sub-alphabet; oracle as for the main model."""
+    def namespace(self):
+        ns = LazyModel.namespace(self)
+        ns["numpy"] = numpy
+        return ns
+
+    def events(self):
+        if self._events is None:
+            base = dict((e.name, e) for e in LazyModel.events(LazyModel()))
+            evs = [Event(name, code, True, g) for g, name, code in AUX_CALCS]
+            for g, names in GROUPS:
+                n = "get:iso:neutron_activation" if g == "activation" else "get:el:%s" % names[0]
+                evs.append(Event(n, base[n].code, True, g))
+            self._events = evs
+        return self._events
+
+
 MEMO_ATOMS = [("n", "pt.elements[0]"), ("N", "pt.N"), ("H", "pt.H"), ("D", "pt.D"), ("Dp", "pt.D.ion[1]"),
               ("Hm", "pt.H.ion[-1]"), ("Fe", "pt.Fe"), ("Fe2", "pt.Fe.ion[2]"), ("Fe56_2", "pt.Fe[56].ion[2]"),
               ("No", "pt.No"), ("na", "pt.Na"), ("Ni", "pt.Ni")]
@@ -575,6 +625,13 @@ def run(ctx):
     pex = histmc.Explorer(pmodel, ctx.jobs, ctx.log).run(depth=(3 if ctx.quick else 4), on_state=poracle)
     pex.oracle = poracle
     runs.append(("private-first-depth%d" % (3 if ctx.quick else 4), pex))
+    # auxiliary public functions as the first touch
+    amodel = AuxFirstModel()
+    acan_obs, acan_dig = canonical(amodel)
+    aoracle = Oracle(amodel, acc, acan_obs, acan_dig)
+    aex = histmc.Explorer(amodel, ctx.jobs, ctx.log).run(depth=(2 if ctx.quick else 3), on_state=aoracle)
+    aex.oracle = aoracle
+    runs.append(("aux-first-depth%d" % (2 if ctx.quick else 3), aex))
     second = 0
     for label, ex in runs:
         if ex.nondeterminism:
@@ -604,6 +661,8 @@ def run(ctx):
             hs = hs[:8]
         if ex is mex:
             todo += [("MemoModel", h, mprobe, mcan_obs) for h in hs]
+        elif ex is aex:
+            todo += [("AuxFirstModel", h, [n for n in probe_names if n in acan_obs], acan_obs) for h in hs]
         elif ex is pex:
             todo += [("PrivFirstModel", h, [n for n in probe_names if n in pcan_obs], pcan_obs) for h in hs]
         else:
@@ -616,7 +675,7 @@ def run(ctx):
         return (factory, h, probes, got, want)
     from ..common import pmap
     res = pmap(validate, todo, ctx.jobs, "fresh-replay")
-    evs = dict((e.name, e) for e in list(model.events()) + list(memo.events()) + list(pmodel.events()))
+    evs = dict((e.name, e) for e in list(model.events()) + list(memo.events()) + list(pmodel.events()) + list(amodel.events()))
     acc.traces = acc.transitions     # every explored transition was executed on the real interpreter (fork/replay)
     for factory, h, probes, got, want in res:
         acc.count("fresh_interpreter_replays")
@@ -637,11 +696,12 @@ def replay(ctx, case, signature=None):
     hist = list(case["history"])
     is_memo = any(n.startswith("memo:") for n in hist + [case.get("event") or ""])
     is_priv = any(n.startswith("privinit:") for n in hist + [case.get("event") or ""])
-    model = MemoModel() if is_memo else (PrivFirstModel() if is_priv else LazyModel())
+    is_aux = any(n.startswith("aux:") for n in hist + [case.get("event") or ""])
+    model = MemoModel() if is_memo else (PrivFirstModel() if is_priv else (AuxFirstModel() if is_aux else LazyModel()))
     can_obs, can_dig = canonical(model)
     evs = dict((e.name, e) for e in model.events())
     if case.get("event"):
-        got = histmc.fresh_replay("mc.props.c09", "MemoModel" if is_memo else ("PrivFirstModel" if is_priv else "LazyModel"),
+        got = histmc.fresh_replay("mc.props.c09", "MemoModel" if is_memo else ("PrivFirstModel" if is_priv else ("AuxFirstModel" if is_aux else "LazyModel")),
                                   hist, [case["event"]])[-1]
         want = can_obs[case["event"]]
         if got != want:
